@@ -217,7 +217,7 @@ impl LH {
             }
         }
     }
-    fn clone_same(&self) -> LH {
+    pub fn clone_same(&self) -> LH {
         match self {
             LH::MS(x) => LH::MS(x.clone()),
             LH::N(x) => LH::N(x.clone()),
